@@ -10,24 +10,24 @@ W1_ASSUME = [
     "merge_nodes is issued only when the two nodes have no common neighbour and 'overwrite'/'combine' only for properties the other node has",
 ]
 
-register('C04', world='w1:W1World', quick=6000, thorough=300000, level='exploration',
+register('C04', world='w1:W1World', quick=18000, thorough=300000, level='exploration',
          rule="one evaluation = one seeded W1 run: 2-4 clients x 1-2+ graph ids, 2-40 interleaved store operations "
               "applied in lock step to the shared store, the one-graph-per-store store and PGModel; after every step "
               "every graph the operation did not address is compared with its snapshot before the step. A run is "
               "non-trivial if it executed at least one successful mutating operation; distinct = distinct event-log digest.",
          assumptions=W1_ASSUME, pinned_rules=PINNED_RULES)
-register('C05', world='w1:W1World', quick=6000, thorough=300000, level='exploration',
+register('C05', world='w1:W1World', quick=18000, thorough=300000, level='exploration',
          rule="one evaluation = one seeded W1 run (see C04); every call's outcome class, returned value and the whole "
               "store state are compared three ways (shared store, disjoint store, PGModel) after every step. Non-trivial: "
               ">=1 successful mutating operation; distinct = distinct event-log digest.",
          assumptions=W1_ASSUME, pinned_rules=PINNED_RULES)
-register('C06', world='w1:W1World', quick=6000, thorough=300000, level='exploration',
+register('C06', world='w1:W1World', quick=18000, thorough=300000, level='exploration',
          rule="one evaluation = one seeded W1 run with a query-heavy mix; each neighbour/path query is answered by both "
               "backends and compared with an oracle computed from PGModel's edge list (set comprehension, BFS, brute-force "
               "simple paths). Non-trivial: >=1 successful mutating operation; distinct = distinct event-log digest.",
          assumptions=W1_ASSUME + ["'loop-free' for path-with-hops is the library's own notion: the sub-graph induced by the path's nodes has no cycle"])
 register('C01', world='w1:W1World', level='exploration',
-         parts=[{'world': 'w1:W1World', 'quick': 5000, 'thorough': 200000},
+         parts=[{'world': 'w1:W1World', 'quick': 12000, 'thorough': 200000},
                 {'world': 'w2:W2World', 'quick': 900, 'thorough': 40000}],
          rule="one evaluation = one seeded W1 run with a round-trip-heavy mix: graphs built by the history are serialized "
               "(GraphML / JSON node-link) from both stores, the text is parsed independently (lxml/json) and compared with "
@@ -39,8 +39,8 @@ register('C01', world='w1:W1World', level='exploration',
          assumptions=W1_ASSUME)
 
 register('C20', level='exploration', world='w1t:W1TWorld',
-         parts=[{'world': 'w1:W1World', 'quick': 4000, 'thorough': 150000},
-                {'world': 'w1t:W1TWorld', 'quick': 12000, 'thorough': 1500000}],
+         parts=[{'world': 'w1:W1World', 'quick': 8000, 'thorough': 150000},
+                {'world': 'w1t:W1TWorld', 'quick': 30000, 'thorough': 1500000}],
          rule="two parts. (A) seeded W1 runs (see C04) with an observing lock in both stores: after every store operation of "
               "every history, incl. naturally failing ones, acquires = releases, no release while unlocked, not held on "
               "exit; plus 'crash_enum' steps that enumerate EVERY line event of one store operation (add_graph, "
@@ -155,7 +155,7 @@ register('C14', world='w3:W3World', quick=1500, thorough=60000, level='explorati
                         "(recorded finding). Non-trivial: >=1 merge/unmerge/rollback/partition done.",
          assumptions=W3_ASSUME)
 
-register('C19', world='w4:W4World', quick=5000, thorough=300000, level='exploration',
+register('C19', world='w4:W4World', quick=20000, thorough=300000, level='exploration',
          rule="one evaluation = one seeded W4 run: the real Neo4j importer / property graph / ASM / CBM classes are driven through "
               "3-30 public operations (node/link CRUD, bulk updates, queries, merge, diff, import, ASM and CBM queries, sliver "
               "adds, lifecycle) with adversarial arguments; every stored value carries a unique marker token. A fake driver "
